@@ -208,6 +208,73 @@ theorem foldE_ind_mem {β : Type} (P : State → Prop) (f : State → β → Exc
 
 end Tbl
 
+/-! ### tables sorted strictly by their (string) primary key -/
+
+def SortedBy {α : Type} (key : α → String) (l : List α) : Prop := l.Pairwise (fun a b => key a < key b)
+
+theorem str_lt_of_not (a b : String) (h1 : ¬ a < b) (h2 : b ≠ a) : b < a := by
+  apply Classical.byContradiction
+  intro h3
+  exact h2 (String.le_antisymm (String.not_lt.mp h1) (String.not_lt.mp h3))
+
+theorem sortedBy_nil {α : Type} (key : α → String) : SortedBy key [] := List.Pairwise.nil
+
+theorem sortedBy_tupsert {α : Type} {key : α → String} (r : α) (l : List α) (h : SortedBy key l) :
+    SortedBy key (tupsert key strLt r l) := by
+  unfold SortedBy at h ⊢
+  induction l with
+  | nil => simp [tupsert]
+  | cons x xs ih =>
+    rw [List.pairwise_cons] at h
+    obtain ⟨hx, hxs⟩ := h
+    simp only [tupsert]
+    by_cases heq : key x = key r
+    · simp only [heq, if_true]
+      rw [List.pairwise_cons]
+      exact ⟨fun y hy => heq ▸ hx y hy, hxs⟩
+    · simp only [heq, if_false]
+      by_cases hlt : strLt (key r) (key x) = true
+      · simp only [hlt, if_true]
+        have hlt' : key r < key x := by simpa [strLt] using hlt
+        rw [List.pairwise_cons]
+        refine ⟨?_, List.pairwise_cons.mpr ⟨hx, hxs⟩⟩
+        intro y hy
+        rcases List.mem_cons.mp hy with rfl | hy
+        · exact hlt'
+        · exact String.lt_trans hlt' (hx y hy)
+      · have hlt0 : strLt (key r) (key x) = false := by simpa using hlt
+        simp only [hlt0, Bool.false_eq_true, if_false]
+        have hnlt' : ¬ key r < key x := by simpa [strLt] using hlt
+        rw [List.pairwise_cons]
+        refine ⟨?_, ih hxs⟩
+        intro y hy
+        rcases mem_tupsert hy with rfl | hy
+        · exact str_lt_of_not _ _ hnlt' heq
+        · exact hx y hy
+
+theorem sortedBy_sublist {α : Type} {key : α → String} {l l' : List α} (hs : l'.Sublist l) (h : SortedBy key l) :
+    SortedBy key l' := List.Pairwise.sublist hs h
+
+theorem terase_sublist {α κ : Type} [DecidableEq κ] (key : α → κ) (k : κ) (l : List α) : (terase key k l).Sublist l := by
+  unfold terase; exact List.filter_sublist
+
+theorem sortedBy_terase {α : Type} {key : α → String} (k : String) (l : List α) (h : SortedBy key l) :
+    SortedBy key (terase key k l) := sortedBy_sublist (terase_sublist key k l) h
+
+/-- one row per key -/
+theorem sortedBy_unique {α : Type} {key : α → String} {l : List α} (h : SortedBy key l) {a b : α}
+    (ha : a ∈ l) (hb : b ∈ l) (hk : key a = key b) : a = b := by
+  unfold SortedBy at h
+  induction l with
+  | nil => simp at ha
+  | cons x xs ih =>
+    rw [List.pairwise_cons] at h
+    rcases List.mem_cons.mp ha with ha | ha <;> rcases List.mem_cons.mp hb with hb | hb
+    · rw [ha, hb]
+    · have := h.1 b hb; rw [← ha, hk] at this; exact absurd this (String.lt_irrefl _)
+    · have := h.1 a ha; rw [← hb, ← hk] at this; exact absurd this (String.lt_irrefl _)
+    · exact ih h.2 ha hb
+
 /-! ### the session-invalidation cascade -/
 
 theorem checkFinish_cat (s : State) (idx : Nat) (p : Bool) (hc : Chk) (m : Bool) :
